@@ -52,6 +52,14 @@ def strArg (vars : List (String × J)) (args : List (String × IVal)) (n : Strin
   | some (.str s) => s
   | _ => ""
 
+/-- `Arguments.ForName(n).Value.Raw` for a string literal or a variable reference (a missing
+    argument is a nil dereference in Go; validation makes `name` mandatory) -/
+def rawArg (args : List (String × IVal)) (n : String) : String :=
+  match args.find? (fun a => a.1 == n) with
+  | some (_, .lit (.str s)) => s
+  | some (_, .var v _) => v
+  | _ => ""
+
 mutual
   /-- response keys in the order `common.SelectionSetToFields(_, nil)` lists the fields -/
   def keys1 : ISel → List String
